@@ -150,6 +150,9 @@ func checkC02(c *Ctx) {
 	checkGeneratorsUsed(c, f)
 	// (c3)
 	checkFreshPerElement(c, f)
+	checkRelevantReviewedForms(c, f, "C02.z", "an inference primitive (type-variable generators, unification, the resolver, substitution, instantiation)",
+		primSet("psTypeVarGen", "psNewTypeVar", "tvgen2ftvgen", "tvcToTypeVarGen", "tdctxTVFAlloc", "unifyType", "unifyTupArg", "compositeTp", "compositeTpList", "InferExpr", "InferLfd", "updateResolver", "updateResOne",
+			"collectTVarFType", "collectTVarFTypeWithSet", "transTVFType", "transTVFTypeWithSet", "resolveOneTypeVar", "resolveType", "resolveExprType", "GenFunc", "GenFuncVar", "GenRecordType", "GenRecordTypeByTgen", "GenUnionType", "tpreplace", "hoistTVar", "New_FType_FTypeVar"), 40)
 	// (b)
 	tv := newTravAn(c, f)
 	tv.checkTraversal("C02.b", "collectExprRel", []string{"collectBlock", "collectStmtRel", "collectSlice"}, 6)
